@@ -36,6 +36,7 @@ def run(ctx):
     b_event_budget(ctx)
     c_tracing_unwrap(ctx)
     d_refusal_skips_output(ctx)
+    c_response_shapes(ctx)
 
 
 def a_tables(ctx, flows):
@@ -466,6 +467,57 @@ def b_event_budget(ctx):
 
 
 GEN1 = "nemoguardrails/actions/llm/generation.py"
+
+
+def c_response_shapes(ctx):
+    """What generate_async hands back when options are given.  (i) A rail exception is a message whose content is the exception EVENT (a dict): it can only be returned in the
+    message form; the bare-content form (used for `prompt=` calls) is typed str and raises a ValidationError for it - no reply and no log reach the caller (F114).  (ii) The
+    supplied bot message is recognised by its role; the documentation writes it with the role "bot", so the test must accept every role the documentation uses for it (F115).
+    (iii) The runtime decides on the LAST event: a `context` message placed after the user message becomes a trailing ContextUpdate that hides the pending user message - the
+    selected rails do not run and the reply is empty (F116); the converter has to apply trailing context updates before the unanswered user message."""
+    t = ctx.tree.ast(LLMRAILS)
+    ga = find_function(t, "generate_async")
+    conv = find_function(t, "_get_events_for_messages")
+    if ga is None or conv is None:
+        raise AnalysisError("generate_async / _get_events_for_messages not found", anchor=LLMRAILS + "::generate_async")
+    # (i)
+    bare = [c for c in ast.walk(ga) if isinstance(c, ast.Call) and src(c.func) == "GenerationResponse"
+            and any(k.arg == "response" and isinstance(k.value, ast.Subscript) and "content" in src(k.value) for k in c.keywords)]
+    ctx.floor("C16.c.response-shapes", LLMRAILS, "bare-content GenerationResponse", len(bare), 1)
+    from ..source import truth as cond_truth, side as cond_side
+    for c in bare:
+        ok = False
+        for p_ in _ancestors(c, ga):
+            if isinstance(p_, ast.If) and any(isinstance(x, ast.Name) and x.id == "exception" for x in ast.walk(p_.test)):
+                v = cond_truth(p_.test, {"exception": True, (lambda e: True): True})
+                if v is not None and not any(c is x for st in cond_side(p_, v) for x in ast.walk(st)):
+                    ok = True
+        ctx.check("C16.c.response-shapes", LLMRAILS, "LLMRails.generate_async", "a rail exception is returned in the message form", ok,
+                  "the bare-content response is not used when the turn ended with a rail exception" if ok else
+                  "`%s` is also used when the turn ended with a rail exception: the content is the exception event (a dict), GenerationResponse rejects it and generate() raises "
+                  "instead of returning the refusal and the log" % first_line(c, 70), line=c.lineno)
+    # (ii)
+    doc_roles = set(re.findall(r'"role"\s*:\s*"(\w+)"', ctx.tree.text(DOC))) if ctx.tree.exists(DOC) else set()
+    supplied = doc_roles - {"user", "context", "system", "event", "tool"}
+    accepted = set()
+    for i in ast.walk(ga):
+        if isinstance(i, ast.If) and "options.rails.dialog" in src(i.test) and "role" in src(i.test):
+            for a_ in ast.walk(i.test):
+                if isinstance(a_, ast.Compare) and len(a_.ops) == 1 and "role" in src(a_.left):
+                    if isinstance(a_.ops[0], ast.Eq) and isinstance(a_.comparators[0], ast.Constant):
+                        accepted.add(a_.comparators[0].value)
+                    if isinstance(a_.ops[0], ast.In) and isinstance(a_.comparators[0], (ast.List, ast.Tuple, ast.Set)):
+                        accepted |= {e.value for e in a_.comparators[0].elts if isinstance(e, ast.Constant)}
+    ctx.check("C16.c.response-shapes", LLMRAILS, "LLMRails.generate_async", "roles of a supplied bot message", bool(accepted) and supplied <= accepted,
+              "the supplied bot message is recognised under every role the documentation uses for it (%s)" % sorted(supplied) if supplied <= accepted and accepted else
+              "the documentation writes the supplied bot message with role %s, generate_async only moves %s into $bot_message: the documented output-rails-only call runs the rails on "
+              "None (TypeError / refusal of a fine message)" % (sorted(supplied - accepted), sorted(accepted)), line=ga.lineno)
+    # (iii)
+    reorders = [n for n in ast.walk(conv) if isinstance(n, (ast.While, ast.If)) and "ContextUpdate" in src(n.test) and "events[-1]" in re.sub(r"\s", "", src(n.test))]
+    ctx.check("C16.c.response-shapes", LLMRAILS, "LLMRails._get_events_for_messages", "context message after the pending user message", bool(reorders),
+              "trailing context updates are applied before the unanswered user message" if reorders else
+              "a `context` message after the newest user message becomes the LAST event; the runtime clears the decided next step on a ContextUpdate, so the turn is swallowed: "
+              "reply '' and an empty log, the selected rails do not run even for input that must be blocked", line=conv.lineno)
 
 
 def d_refusal_skips_output(ctx):
